@@ -189,6 +189,7 @@ var constPats = []struct {
 	truth bool
 }{{"true", true}, {"false", false}, {"1", true}, {"0", false}, {`"x"`, true}, {`""`, false}, {"null", false},
 	// regex literals containing comment and quote characters: the rest of the program must still be read as written
+	{"0.0", false}, {"00", false}, {"0.00", false}, {"1.0", true}, {"0.5", true}, {"010", true}, {"-0", false}, {"!0.0", true}, {"' '", true},
 	{`"zz" ~ /#'"[0-9]+/`, false}, {`"a#b" ~ /a#b/`, true}, {`"it's" ~ /'s$/`, true}, {`"q" !~ /"q"/`, true}, {`'#' ~ "#"`, true}}
 
 func (g *streamGen) pattern() *Pat {
@@ -256,7 +257,7 @@ var selectorPool = []string{"$", "$.items", "$.a", "$.b", "$[0]", "$[-1]", "$[1]
 // traceProgram draws a trace program. richness: 0 small .. 2 many rules.
 func (g *streamGen) traceProgram(noBodyOK bool, sigProb int, rerootOK bool, setFileOK bool) *TProg {
 	t := g.t
-	p := &TProg{FuncsFirst: t.Chance(1, 2), Semis: t.Chance(1, 4)}
+	p := &TProg{FuncsFirst: t.Chance(1, 2), Semis: t.Chance(1, 4), ViaFn: t.Weighted(4, 1, 1)}
 	counts := map[string]int{}
 	kinds := []string{"PATTERN", "BEGIN", "END", "BEGINFILE", "ENDFILE"}
 	n := 1 + t.Draw(9)
@@ -349,8 +350,16 @@ func fixNoBody(p *TProg) {
 		}
 		if i+1 < len(rules) {
 			nx := rules[i+1]
-			if nx.Kind == "PATTERN" && (nx.Pat == nil || nx.Pat.Kind == "nott") {
-				rules[i].NoBody = false
+			if nx.Kind == "PATTERN" {
+				// the next rule's text must not start with something the parser
+				// would read as this rule's body or as an operator applied to its pattern
+				first := byte('{')
+				if nx.Pat != nil {
+					first = nx.Pat.render()[0]
+				}
+				if strings.IndexByte("{!-+([./*%<>=~&|", first) >= 0 {
+					rules[i].NoBody = false
+				}
 			}
 		}
 	}
@@ -446,6 +455,9 @@ func (g *streamGen) fault(fi int, data []byte, ref *RefResult, kinds []string) *
 		case 0:
 			f.How = "replace"
 			f.Byte = int(corruptBytes[t.Draw(len(corruptBytes))])
+			if t.Chance(1, 2) {
+				f.Byte = t.Draw(256)
+			}
 		case 1:
 			f.How = "delete"
 		default:
